@@ -124,7 +124,7 @@ fn new_root_body<'gc>(w: &mut World, a: Aid, mc: &'gc Mutation<'gc>, root_set: I
     }
     w.sh.objs.insert(
         root_set,
-        Obj { kind: Kind::SetInner, arena: a, strong: vec![], weak: vec![], toks: vec![], addr, block, destructed: false, released: false, born_event: w.ev_index as u32, lay: None, conv: vec![], drop_faulted: false },
+        Obj { kind: Kind::SetInner, arena: a, strong: vec![], weak: vec![], toks: vec![], addr, block, destructed: false, released: false, born_event: w.ev_index as u32, lay: None, conv: vec![], drop_faulted: false, leaked: false },
     );
     w.addr2id.insert(addr, root_set);
     w.rt[a as usize].allocs += 1;
@@ -144,7 +144,7 @@ fn new_root_body<'gc>(w: &mut World, a: Aid, mc: &'gc Mutation<'gc>, root_set: I
     }
     w.sh.objs.insert(
         root_set + 1,
-        Obj { kind: Kind::ZstShared, arena: a, strong: vec![], weak: vec![], toks: vec![], addr: zaddr, block: zblock, destructed: false, released: false, born_event: w.ev_index as u32, lay: None, conv: vec![], drop_faulted: false },
+        Obj { kind: Kind::ZstShared, arena: a, strong: vec![], weak: vec![], toks: vec![], addr: zaddr, block: zblock, destructed: false, released: false, born_event: w.ev_index as u32, lay: None, conv: vec![], drop_faulted: false, leaked: false },
     );
     w.addr2id.insert(zaddr, root_set + 1);
     w.sh.arena_mut(a).root_zst = Some(root_set + 1);
